@@ -635,7 +635,8 @@ func ruleC06R8(r *Run) {
 		fns = append(fns, f)
 		allInstrs(f, func(ins ssa.Instruction) {
 			if c, ok := ins.(*ssa.Call); ok {
-				if cf := c.Call.StaticCallee(); cf != nil && p.Analysed(cf) && recvTypeName(cf) == "ClientConn" && len(p.staticCallSites(cf)) == 1 {
+				if cf := c.Call.StaticCallee(); cf != nil && p.Analysed(cf) && recvTypeName(cf) == "ClientConn" && cf != fn {
+					// (a dispatch helper may be shared with the unreliable loop)
 					withAnon(cf, func(g *ssa.Function) { fns = append(fns, g) })
 				}
 			}
@@ -653,6 +654,21 @@ func ruleC06R8(r *Run) {
 					if st.Dir == types.SendOnly {
 						k++
 						r.Check(fmt.Sprintf("%s send#%d on %s", name, k, chanField(p, st.Chan)), x.Blocking, posOf(p, ins), name, "a send in a select with a default branch drops the message when the receiver is momentarily behind; for responses this leaves the caller without its answer")
+					}
+				}
+			}
+			// a channel of the connection handed to a send helper (offer(ch, m) / deliver(ctx, ch, m)): judged by the
+			// helper's sends on that parameter
+			if c, isCall := ins.(*ssa.Call); isCall {
+				if cal := c.Call.StaticCallee(); cal != nil && p.Analysed(cal) && cal.Blocks != nil && recvTypeName(cal) != "ClientConn" {
+					for i, a := range c.Call.Args {
+						if _, isCh := a.Type().Underlying().(*types.Chan); !isCh || chanField(p, a) == "?" {
+							continue
+						}
+						for _, ps := range paramSends(cal, i, 0) {
+							k++
+							r.Check(fmt.Sprintf("%s send#%d on %s", name, k, chanField(p, a)), ps.blocking, posOf(p, ins), name, "the channel is handed to "+fnName(cal)+", which sends with a default branch: the message is dropped when the receiver is momentarily behind; for responses this leaves the caller without its answer")
+						}
 					}
 				}
 			}
